@@ -3,6 +3,7 @@
   equals the per-frame delay line; splitting lemmas.  Helper lemmas for C13_b / C14_b.
 -/
 import KiraModel.Proofs.EffectsBFrame
+import Mathlib.Algebra.Order.Floor.Semifield
 
 namespace K
 
@@ -359,6 +360,16 @@ theorem chunks_silent (C : FxChain ℝ φ) (fb mx : Parameter ℝ ℝ) (dt : ℝ
           simp only [c3, d3, List.replicate_append_replicate]
           congr 1; omega
         · cases h
+
+/-- the integer line length is the floor of `delay (s) · fs` over ℝ: `ns·fs / 10⁹ = ⌊ns/10⁹ · fs⌋` -/
+theorem frames_eq_floor (ns sr : ℕ) :
+    ns * sr / 1000000000 = ⌊(ns : ℝ) / 1000000000 * (sr : ℝ)⌋₊ := by
+  have e : (ns : ℝ) / 1000000000 * (sr : ℝ) = ((ns * sr : ℕ) : ℝ) / ((1000000000 : ℕ) : ℝ) := by
+    push_cast; ring
+  rw [e, Nat.floor_div_eq_div]
+
+theorem frames_real (ns sr : ℕ) : frames ns sr = max ⌊(ns : ℝ) / 1000000000 * (sr : ℝ)⌋₊ 1 := by
+  unfold frames; rw [frames_eq_floor]
 
 end Delay
 end K
